@@ -155,7 +155,7 @@ def check_case(prop, c, o, m, verdict, known, counters, sch):
                 return
             if mt.get('normalizer') == 'negzero' and extra and extra.get('read') and extra.get('written'):
                 # the ONLY differences are float -0 written, +0 read back (setter compares with !=)
-                allr = [strip_mask(r) for r in go_recs]
+                allr = [strip_mask(r) for r in (go_recs if prop == 'C01' else m.get('recs', []))]
                 if len(allr) == len(written) and all(
                         a == b or (len(a) == len(b) and a == negzero_norm(b, a)) for a, b in zip(allr, written)):
                     verdict.known_finding(kid, k['what_fails'])
@@ -211,7 +211,7 @@ def check_case(prop, c, o, m, verdict, known, counters, sch):
             mr = m.get('recs', [])
             i = next((i for i in range(min(len(mr), len(written))) if strip_mask(mr[i]) != written[i]), min(len(mr), len(written)))
             fail('spec-decode', f'record {i}: specification decoder yields a different record than was written',
-                 dict(first_diff=i, decoded=mr[i] if i < len(mr) else None, written=written[i] if i < len(written) else None))
+                 dict(first_diff=i, read=mr[i] if i < len(mr) else None, written=written[i] if i < len(written) else None))
             return
         if m.get('reenc') != 'ok':
             fail('canonical', f'emitted frame differs from the canonical encoding of its own content ({m.get("reenc", "")[:60]})'); return
